@@ -54,8 +54,21 @@ JOBS = [dict(name='FileHDF5_close', bodies=['FileHDF5_close'], enforce=['FileHDF
              cbmc_flags=['--unwind', '9', '--unwinding-assertions'], expect_kinds=['postcondition', 'loop_invariant_step'], timeout=900)]
 JOBS += [dict(name=fn, bodies=[fn], enforce=[fn], replace=[], includes=['c11_small.h'], extra_c=SMALL_EXTRA, expect_kinds=['postcondition'], timeout=300)
          for fn in ('File_flush', 'File_close', 'FileHDF5_flush', 'FileHDF5_isOpen', 'FileHDF5_dtor')]
-SPEC = dict(contracts=['c11_close.h', 'c11_small.h'], stubs=[], include_order=['c11_close.h'], units=UNITS, jobs=JOBS,
+def has_rules(ctx, toks):
+    """name.c_str() -> name (abstract string);  res.check("message" [+ ...]) keeps the literal only"""
+    from cxx2c import seq_at, match_close
+    out = []; i = 0
+    while i < len(toks):
+        if toks[i].k == 'id' and seq_at(toks, i + 1, ['.', 'c_str', '(', ')']):
+            out.append(toks[i]); i += 5; continue
+        out.append(toks[i]); i += 1
+    return out
+UNITS['H5Group_hasObject'] = dict(file='backend/hdf5/h5x/H5Group.cpp', locator=r'bool\s+H5Group::hasObject\s*\(', cls='H5Group', cls_file='backend/hdf5/h5x/H5Group.hpp', classes=['H5Group', 'nstring', 'HTri'],
+                                  inherited_members=['hid'], pre_rules=[has_rules])
+JOBS.append(dict(name='H5Group_hasObject', bodies=['H5Group_hasObject'], enforce=['H5Group_hasObject'], replace=[], includes=['c11_has.h'], extra_c='int gh_exists_answer, gh_exists_calls, gh_exists_name; long gh_exists_hid;\n',
+                 expect_kinds=['postcondition'], timeout=300))
+SPEC = dict(contracts=['c11_close.h', 'c11_small.h', 'c11_has.h'], stubs=[], include_order=['c11_close.h'], units=UNITS, jobs=JOBS,
             trusted_base=['CBMC 6.11.0 (C front end, --dfcc, loop contracts, SAT back end)', 'vlib/cxx2c.py idiom map',
                           'libhdf5 identifier table modelled as a ghost array of 64 reference counts: H5Fget_obj_count / H5Fget_obj_ids / H5Iget_ref / H5Oclose are definitional stubs written from the HDF5 manual'],
             assumptions=['at most 64 open identifiers (size of the ghost table; the loops themselves are closed by loop contracts)',
-                         'durability of flush/close, SIGKILL, reopening by another process and the behaviour of stale entity handles are not covered'])
+                         'durability of flush/close, SIGKILL, reopening by another process and the behaviour of stale entity handles beyond H5Group::hasObject (an error answer of libhdf5 raises) are not covered'])
